@@ -1,4 +1,6 @@
 import PallasVerif.Proofs.CborContainers
+import PallasVerif.Proofs.SkipParse
+import PallasVerif.Proofs.MinicborTotal
 /-!
 # C03 — CBOR helper wrappers round-trip and preserve original encodings
 
@@ -239,6 +241,44 @@ theorem keepraw_mia_anyuint_preserves : Pres (cKeepRaw (cMaybeIndef cAnyUInt)) :
       · obtain ⟨xs, e, _⟩ := Res.map_eq_ok h; exact hv xs e
       · cases h
 
+/-! ## `AnyCbor` captures exactly one data item; `skip()` is total -/
+
+/-- on the definite fragment (no indefinite-length node, text strings valid UTF-8 — `plain`), `skip()`
+    walks over exactly the encoding of one well-formed item, whatever follows -/
+theorem skip_walks_one_item (i : Item) (r : Bytes) (hw : i.wf = true) (hp : plain i = true)
+    (hlen : (i.encode ++ r).length ≤ u64Max) : skip (i.encode ++ r) = .ok () r := skip_item i r hw hp hlen
+
+/-- hence `AnyCbor` agrees with the strict generic parser there: it captures the bytes of the first
+    item (non-minimal head widths included) and nothing else -/
+theorem anycbor_captures_one_item (bs : Bytes) (i : Item) (r : Bytes) (h : parseItem bs = some (i, r))
+    (hp : plain i = true) (hlen : bs.length ≤ u64Max) : cAnyCbor.dec bs = .ok i.encode r := by
+  obtain ⟨e, hw⟩ := parseItem_sound bs i r h
+  subst e
+  simp [cAnyCbor, AnyCbor.dec, skip_item i r hw hp hlen, span_of_suffix]
+
+/-- and an `AnyCbor` holding such an item round-trips -/
+theorem anycbor_roundtrip_item (i : Item) (r : Bytes) (hw : i.wf = true) (hp : plain i = true)
+    (hlen : (i.encode ++ r).length ≤ u64Max) : cAnyCbor.dec (cAnyCbor.enc i.encode ++ r) = .ok i.encode r :=
+  anycbor_rt_of_skip _ _ (skip_item i r hw hp hlen)
+
+/-- the loop of `skip()` never runs out of the fuel the model gives it (one unit per input byte): the
+    model-only outcome `diverge` is unreachable, on every input -/
+theorem skip_never_diverges (cur : Bytes) : skip cur ≠ .err .diverge := skip_nd cur
+
+/-! ## `codec_by_datatype!` -/
+
+/-- an input whose datatype belongs to variant `k`'s set (and to no earlier variant's, and is not a
+    definite array when a many-field variant exists) is decoded by variant `k`'s payload decoder -/
+theorem byDatatype_dispatch_single {γ : Type} (many : Option (P γ)) (arms : List (Arm γ)) (cur : Bytes) (t : DType)
+    (k : Nat) (a : Arm γ) (hdt : datatype cur = .ok t) (hmany : many.isSome = true → t ≠ .array)
+    (hk : arms[k]? = some a) (hsel : a.types t = true)
+    (hfirst : ∀ j, j < k → ∀ b, arms[j]? = some b → b.types t = false) :
+    byDatatype many arms cur = a.dec cur := byDatatype_single many arms cur t k a hdt hmany hk hsel hfirst
+
+/-- a definite array head always goes to the many-field variant -/
+theorem byDatatype_dispatch_many {γ : Type} (m : P γ) (arms : List (Arm γ)) (cur : Bytes) (hdt : datatype cur = .ok .array) :
+    byDatatype (some m) arms cur = (array cur).andThen fun _ r => m r := byDatatype_many m arms cur hdt
+
 /-! ## non-vacuity -/
 
 example : AnyUInt.wf (.u8 5) ∧ AnyUInt.wf (.majorByte 23) ∧ ¬ AnyUInt.wf (.majorByte 24) := by decide
@@ -254,5 +294,9 @@ example : (cKeepRaw (cVec cU64)).enc ((KeepRaw.mk [0x9f, 0x01, 0x02, 0xff] [1, 2
 example : cAnyCbor.dec [0x98, 0x02, 0x01, 0x9f, 0xff, 0x00] = .ok [0x98, 0x02, 0x01, 0x9f, 0xff] [0x00] := rfl
 /-- the `Nullable` side condition is needed: a payload that encodes as `f6` comes back as `Null` -/
 example : (cNullable (cNullable cU64)).dec ((cNullable (cNullable cU64)).enc (.some .null)) = .ok .null [] := rfl
+
+example : plain (.seq ⟨4, 25, [0, 2]⟩ [.atom ⟨0, 24, [5]⟩, .str ⟨3, 1, []⟩ [0x61]]) = true := by decide
+example : (Item.seq ⟨4, 25, [0, 2]⟩ [.atom ⟨0, 24, [5]⟩, .str ⟨3, 1, []⟩ [0x61]]).wf = true := by decide
+example : (Item.seq ⟨4, 25, [0, 2]⟩ [.atom ⟨0, 24, [5]⟩, .str ⟨3, 1, []⟩ [0x61]]).encode = [0x99, 0x00, 0x02, 0x18, 0x05, 0x61, 0x61] := by decide
 
 end PallasVerif.Props.C03
